@@ -7,7 +7,7 @@ RULE = ("family tls: a Server with a TLS configuration listening on the loopback
         "boundary class / with single bits inverted / followed by an HTTP request, x the way the client ends the connection (reset, close, "
         "wait). Over completed handshakes: C01-class requests with bodies, split at a random offset, each also sent to a plain server; one-shot "
         "clients (write + close at once) through a relay that coalesces the end of the handshake, the request and the close into one segment; "
-        "non-trivial = distinct case")
+        "overlapping connections (2-4 clients connect first, then complete the handshake or send clear text and reset, in every order); non-trivial = distinct case")
 ASSUMPTIONS = ["the TLS engine is OpenSSL behind QSslSocket", "certificate verification is off in the harness client (the test key pair is self-signed)"]
 TRUSTED = ["real loopback TCP and real timing; bounded waits in the harness", "judged by the extracted spec checker only (no model run: the engine is a parameter of the model)"]
 
@@ -55,3 +55,14 @@ def cases(tier, seed, ctx=None):
         q = G.valid_request(rng, body_len=rng.choice([0, 1, 5, 40]))
         data = q["head"] + b"\r\n\r\n" + rng.bytes(max(0, q["cl"]))
         yield ("tls", [2, data], "one-shot-coalesced")
+    # overlapping connections: all clients connect first; then they act in every order (handshake completes / clear text + reset)
+    R = b"GET /a HTTP/1.1\r\nHost: h\r\n\r\n"
+    clear = [b"", b"GET / HTTP/1.1\r\n\r\n", b"\x16\x03\x01", b"\x16\x03\x01\x00\x05hello", rng.bytes(20)]
+    import itertools
+    shapes = [[1, 0], [0, 1], [1, 1, 0], [1, 0, 1], [0, 1, 0], [1, 0, 0]]
+    for shape in shapes if quick else shapes + [[1, 1, 1, 0], [0, 0, 1, 1], [1, 0, 1, 0]]:
+        for order in itertools.permutations(range(len(shape))):
+            if quick and len(shape) > 2 and rng.below(2):
+                continue
+            cls = [[1, R] if k else [0, rng.choice(clear)] for k in shape]
+            yield ("tls", [3, cls, list(order)], "overlapping")
